@@ -382,6 +382,36 @@ class Check:
         return 1 if self.violations else 0
 
 
+CANARY_BASE = 2_000_000_000  # ids >= this are deliberately corrupted records (binding / non-vacuity guard)
+
+
+def judge_with_canaries(chk: "Check", module: str, recs: list[dict], canaries: list[tuple[dict, str]], *, label: str = "", what: str = "", case_of=None, **kw) -> OracleResult:
+    """Judge `recs` with the TLA+ oracle `module`; `canaries` = [(corrupted record, clause that MUST be
+    reported for it)].  Ids are assigned here.  A canary the oracle accepts is a machinery failure
+    (the oracle does not constrain that field => the check would be vacuous), never a violation."""
+    for i, x in enumerate(recs):
+        x["id"] = i
+    allrecs = list(recs)
+    for k, (c, _cl) in enumerate(canaries):
+        c = dict(c)
+        c["id"] = CANARY_BASE + k
+        canaries[k] = (c, _cl)
+        # spread canaries over the batch so every shard layout sees them judged like ordinary records
+        allrecs.insert((len(allrecs) * (k + 1)) // (len(canaries) + 1), c)
+    res = oracle(module, allrecs, tag=label or module, **kw)
+    for c, cl in canaries:
+        got = res.verdicts.pop(c["id"], [])
+        if cl not in got:
+            raise MachineryError(f"canary not rejected by {module}: expected clause {cl!r}, got {got} (oracle does not bind this field)")
+    chk.notes.setdefault("canaries_rejected", 0)
+    chk.notes["canaries_rejected"] += len(canaries)
+    res.records -= len(canaries)
+    chk.add_oracle(module, res, what)
+    case_of = case_of or (lambda x: x)
+    chk.judge({x["id"]: case_of(x) for x in recs}, res, label=label)
+    return res
+
+
 def pmap(fn, items, procs: int | None = None, chunksize: int = 1):
     """fork-based parallel map for observation drivers (module-level fn)"""
     import multiprocessing as mp
